@@ -65,12 +65,12 @@ func body() {
 
 	nSeq := envInt("C04_NSEQ", r.Pick(400, 8000))
 	nProc := envInt("C04_NPROC", r.Pick(80, 1600))
-	nBig := envInt("C04_NBIG", r.Pick(4, 42)) // batches > 10 MiB: fresh memory is slow under the race detector
+	nBig := envInt("C04_NBIG", r.Pick(3, 28)) // batches > 10 MiB: fresh memory is slow under the race detector
 	nAge := envInt("C04_NAGE", r.Pick(12, 120))
 	nAgeBig := envInt("C04_NAGEBIG", r.Pick(0, 4))
-	nConc := envInt("C04_NCONC", r.Pick(48, 800))
+	nConc := envInt("C04_NCONC", r.Pick(40, 640))
 	nConcProc := envInt("C04_NCONCPROC", r.Pick(12, 200))
-	nCrash := envInt("C04_NCRASH", r.Pick(40, 700))
+	nCrash := envInt("C04_NCRASH", r.Pick(32, 400))
 	nCrashConc := envInt("C04_NCRASHCONC", r.Pick(8, 120))
 	nSvc := envInt("C04_NSVC", r.Pick(3, 16))
 
@@ -100,7 +100,8 @@ func body() {
 	add("svc-remove", nSvc, func(i int, id string, s int64) { runSvcRemove(id, s, root) })
 	add("svc-churn", nSvc*2, func(i int, id string, s int64) { runSvcChurn(id, s, root) })
 	add("age-multi-segment", nAgeBig, func(i int, id string, s int64) { runProcAge(id, s, true, root) })
-	add("split", nBig, func(i int, id string, s int64) { runProcBig(id, s, i%7, root) })
+	shapeOrder := []int{0, 1, 3, 2, 5, 6, 4} // the quick tier runs the first three
+	add("split", nBig, func(i int, id string, s int64) { runProcBig(id, s, shapeOrder[i%7], root) })
 	add("age", nAge, func(i int, id string, s int64) { runProcAge(id, s, false, root) })
 	degrees := []int{1, 4, 12, 32}
 	add("conc", nConc, func(i int, id string, s int64) { runConcQueue(id, s, degrees[i%4], root) })
